@@ -76,6 +76,7 @@ func (p *TriggerPool) stop() {
 	p.stopWorkers.Store(true)
 	verifhook.Yield("pool.stop.after_flag")
 	p.sendJobsForExecution(0)
+	verifhook.Yield("pool.stop.done")
 }
 
 func (p *TriggerPool) maxIterationsReached() {
